@@ -10,6 +10,7 @@ Model side: `SkaModel/Core/Budget.lean`, `Core/Stream.lean`, driver commands in 
 * `np.quantile` of the BIQF module captured through a module-level proxy;
 * deep snapshots of all instance attributes incl. nested budget managers and `RandomState.get_state()`.
 """
+import os
 import contextlib
 import copy
 import hashlib
@@ -450,6 +451,28 @@ def model_line(spec, run):
 
 def impl_text(run):
     return " ; ".join(run.segments)
+
+
+GEN_CMDS = {"bm_fixed", "bm_var", "bm_randvar", "bm_split", "bm_random", "bm_dbsplit", "bm_biqf", "sb_random", "sb_periodic"}
+
+
+def compare_models(ctx, lines, expect):
+    """Run the hand-written model (skadriver) and the model generated from the current source (skagendriver) on the
+    case lines and compare both, token by token, with the transcript of the real classes."""
+    outs = vlib.run_driver(lines)
+    for line, out, (impl, spec) in zip(lines, outs, expect):
+        if out.split() != impl.split():
+            ctx.disagree("SkaModel.Core.Budget/Stream vs skactiveml.stream (budget managers, baselines)",
+                         dict(spec=spec, line=line[:300]), out[:600], impl[:600])
+    if not getattr(ctx, "gen_ok", False) or not os.path.exists(vlib.GENDRIVER):
+        return
+    sel = [(l, e) for l, e in zip(lines, expect) if l.split(" ", 1)[0] in GEN_CMDS]
+    gouts = vlib.run_driver(["g_" + l for l, _ in sel], exe=vlib.GENDRIVER)
+    for (line, (impl, spec)), out in zip(sel, gouts):
+        ctx.count("generated_model_cases")
+        if out.split() != impl.split():
+            ctx.disagree("SkaModel.Gen.StreamBM (translated from the current source) vs skactiveml.stream",
+                         dict(spec=spec, line=("g_" + line)[:300]), out[:600], impl[:600])
 
 
 # ---------------------------------------------------------------------------------------------
